@@ -6080,6 +6080,10 @@ class Device(utils.CompositeEventEmitter):
         ):
             self.legacy_advertiser = None
 
+        # An incoming BR/EDR connection that was accepted will not complete
+        if transport == PhysicalTransport.BR_EDR:
+            self.pending_connections.pop(peer_address, None)
+
         # Notify listeners
         error = core.ConnectionError(
             error_code,
